@@ -1,13 +1,17 @@
 /-
 C17 — AmpGen option files are read into the amplitudes and tables they state.
 `readAmpgen` follows `AmplitudeChain.read_ampgen` on the statement list (the reading of the text into
-statements is tied to the real parser by the correspondence check).
+statements is tied to the real parser by the correspondence check).  The reading of the text: the reader
+model `Amp.readAmpText` reads every rendering of a list of statements back to the statements
+(`C17_read_simple`, `C17_read_layout`, `C17_layout_irrelevant`, `C17_readAmp_layout`; proofs in
+DL/Lemmas/AmpRT.lean).
 -/
 import DL.Lemmas.Cartesian
 import DL.Lemmas.ExceptList
 import Mathlib.Algebra.BigOperators.Group.List.Basic
 import DL.Model.AmpGen
 import DL.Gen.ClassState
+import DL.Lemmas.AmpRT
 namespace DL
 
 /-- a successful read reports the event-type particles in order, one parameter row per parameter
@@ -115,5 +119,174 @@ theorem C17_expand_replace (ll : List AChain) (f : Nat) (c : AChain) (he : c.ds.
 
 /-- the reset policy regenerated from the source: every class-level attribute is reset by a read -/
 theorem C17_policy : Gen.resetPolicy = { allParticles := true, finalParticles := true, cartesian := true } := by decide
+
+/-! ### reading of the text -/
+
+/-- the canonical text of a list of statements (one statement per line, single blanks between the
+    tokens, trees as `name[spin;ls]{d1,d2}`) reads back to the statements -/
+theorem C17_read_simple (d : List Amp.AStmtT) (hd : ∀ s ∈ d, Amp.RT.AStmtOK s) (hne : d ≠ []) :
+    Amp.readAmpText (String.ofList (Amp.RT.renderAmpSimple d)) = .ok d :=
+  Amp.RT.read_simple d hd hne
+
+/-- every good layout (blank runs between and inside the tokens' groups, indentation, trailing blanks,
+    comments, blank and comment lines, LF or CRLF, a last comment without a line end (on its own line
+    or behind the last statement), any text for the ignored lines) reads back to the statements -/
+theorem C17_read_layout (ℓ : Amp.RT.AmpLayout) (hℓ : Amp.RT.GoodAmpLayout ℓ) (d : List Amp.AStmtT)
+    (hd : ∀ s ∈ d, Amp.RT.AStmtOK s) (hne : d ≠ []) :
+    Amp.readAmpText (String.ofList (Amp.RT.renderAmp ℓ d)) = .ok d :=
+  Amp.RT.read_layout ℓ hℓ d hd hne
+
+/-- two good layouts of the same statements read alike -/
+theorem C17_layout_irrelevant (ℓ₁ ℓ₂ : Amp.RT.AmpLayout) (h₁ : Amp.RT.GoodAmpLayout ℓ₁)
+    (h₂ : Amp.RT.GoodAmpLayout ℓ₂) (d : List Amp.AStmtT) (hd : ∀ s ∈ d, Amp.RT.AStmtOK s) (hne : d ≠ []) :
+    Amp.readAmpText (String.ofList (Amp.RT.renderAmp ℓ₁ d)) =
+      Amp.readAmpText (String.ofList (Amp.RT.renderAmp ℓ₂ d)) :=
+  Amp.RT.layout_irrelevant ℓ₁ ℓ₂ h₁ h₂ d hd hne
+
+/-- the reader with integer fix flags converts the flags of the statements read -/
+theorem C17_readAmp_layout_mapM (ℓ : Amp.RT.AmpLayout) (hℓ : Amp.RT.GoodAmpLayout ℓ) (d : List Amp.AStmtT)
+    (hd : ∀ s ∈ d, Amp.RT.AStmtOK s) (hne : d ≠ []) :
+    readAmp (String.ofList (Amp.RT.renderAmp ℓ d)) = d.mapM Amp.AStmtT.toStmt :=
+  Amp.RT.readAmp_layout_mapM ℓ hℓ d hd hne
+
+/-- ... and when the fix flags are integer texts it returns the statements with integer flags -/
+theorem C17_readAmp_layout (ℓ : Amp.RT.AmpLayout) (hℓ : Amp.RT.GoodAmpLayout ℓ) (d : List Amp.AStmtT)
+    (hd : ∀ s ∈ d, Amp.RT.AStmtOK s) (hne : d ≠ []) (hi : ∀ s ∈ d, Amp.RT.FlagsInt s) :
+    readAmp (String.ofList (Amp.RT.renderAmp ℓ d)) = .ok (d.map Amp.RT.stmtOf) :=
+  Amp.RT.readAmp_layout ℓ hℓ d hd hne hi
+
+theorem C17_readAmp_simple (d : List Amp.AStmtT) (hd : ∀ s ∈ d, Amp.RT.AStmtOK s) (hne : d ≠ [])
+    (hi : ∀ s ∈ d, Amp.RT.FlagsInt s) :
+    readAmp (String.ofList (Amp.RT.renderAmpSimple d)) = .ok (d.map Amp.RT.stmtOf) :=
+  Amp.RT.readAmp_simple d hd hne hi
+
+/-! #### a worked example -/
+
+def exLeaf (n : String) : ADecay := .mk n none none []
+
+/-- an event type, a two-resonance line with `[D]` and `[S;GSpline.EFF]` tags, a cascade nested to
+    depth 3, a parameter, a constant, the two ignored kinds of line, the three options -/
+def exAmpDoc : List Amp.AStmtT := [
+  .eventType ["D0", "K-", "pi+", "pi+", "pi-"],
+  .line (.mk "D0" (some "D") none
+      [.mk "K*(892)bar0" none none [exLeaf "K-", exLeaf "pi+"],
+       .mk "rho(770)0" (some "S") (some "GSpline.EFF") [exLeaf "pi+", exLeaf "pi-"]])
+    "2" "0.205" "0.001" "2" "-28.5" "0.5",
+  .line (.mk "D0" none none
+      [.mk "K(1)(1270)bar-" none (some "GounarisSakurai.Omega")
+         [.mk "K*(892)bar0" none none [exLeaf "K-", exLeaf "pi+"], exLeaf "pi-"],
+       exLeaf "pi+"])
+    "0" "1" "0" "0" "0" "0",
+  .variable "K(1)(1270)bar-_mass" "0" "1289.81" "1.75",
+  .constant "D0_radius" "3.7559",
+  .cartLine,
+  .invertLine,
+  .fastCoherentSum "1",
+  .output "\"fit \\\"one\\\".root\"",
+  .nEvents "10000"]
+
+/-- a layout: a comment line and an empty line first, indentation, tabs and wide gaps, trailing
+    blanks and comments, CRLF and LF line ends, blank and comment lines between the statements,
+    blanks inside the decay tree, no blanks where the lexer needs none (after the tree, around `=`,
+    before the quoted string), other texts for the two ignored lines, a last comment without line end -/
+def exAmpLayout : Amp.RT.AmpLayout :=
+  { pre := [⟨[' '], some " options".toList, true⟩, ⟨[], none, false⟩],
+    lines := [
+      { indent := [' ', ' '], gaps := [['\t'], [' ', ' ']], trail := [' '], comment := some " five bodies".toList,
+        crlf := true, follow := [⟨[' '], none, true⟩, ⟨[], some [], false⟩] },
+      { gaps := [[' '], [' ', ' '], ['\t']], opGaps := [[]],
+        treeGaps := [(([], 0), [' ']), (([], 1), [' ']), (([], 4), [' ']), (([], 6), [' ']), (([], 7), [' ']),
+          (([], 8), ['\t']), (([1], 2), [' ']), (([1], 3), [' ']), (([1], 5), [' ']), (([1], 9), [' ']),
+          (([0], 6), [' '])] },
+      { treeGaps := [(([0], 5), [' ', ' '])], crlf := true },
+      {},
+      { trail := ['\t'], comment := some "constant".toList },
+      { ignored := { cartTree := .mk "D0" none none
+                       [exLeaf "K-", .mk "X" (some "P") none [exLeaf "EventType", exLeaf "nEvents"]],
+                     cartF := "+1", cartV := ".5", cartE := "1e-3" }, opGaps := [[]] },
+      { ignored := { invA := "x::y", invB := "Output" }, opGaps := [[], []] },
+      { gaps := [[' ', ' ']] },
+      { opGaps := [[]] },
+      { follow := [⟨[], none, false⟩] }],
+    fin := .ownLine [' '] " end of the options".toList }
+
+example : ∀ s ∈ exAmpDoc, Amp.RT.AStmtOK s := by decide
+example : ∀ s ∈ exAmpDoc, Amp.RT.FlagsInt s := by decide
+example : Amp.RT.GoodAmpLayout exAmpLayout := by decide
+example : Amp.RT.GoodAmpLayout {} := by decide
+
+def exAmpPlain : String :=
+  "EventType D0 K- pi+ pi+ pi-\n" ++
+  "D0[D]{K*(892)bar0{K-,pi+},rho(770)0[S;GSpline.EFF]{pi+,pi-}} 2 0.205 0.001 2 -28.5 0.5\n" ++
+  "D0{K(1)(1270)bar-[GounarisSakurai.Omega]{K*(892)bar0{K-,pi+},pi-},pi+} 0 1 0 0 0 0\n" ++
+  "K(1)(1270)bar-_mass 0 1289.81 1.75\n" ++
+  "D0_radius 3.7559\n" ++
+  "a{b,c} 0 1 0\n" ++
+  "a = b\n" ++
+  "FastCoherentSum::UseCartesian 1\n" ++
+  "Output \"fit \\\"one\\\".root\"\n" ++
+  "nEvents 10000\n"
+
+def exAmpFancy : String :=
+  " # options\r\n" ++
+  "\n" ++
+  "  EventType\tD0  K- pi+ pi+ pi- # five bodies\r\n" ++
+  " \r\n" ++
+  "#\n" ++
+  "D0 [ D ]{ K*(892)bar0{ K-,pi+} ,\trho(770)0[S ; GSpline.EFF] {pi+,pi- }}2  0.205\t0.001 2 -28.5 0.5\n" ++
+  "D0{K(1)(1270)bar-[GounarisSakurai.Omega]  {K*(892)bar0{K-,pi+},pi-},pi+} 0 1 0 0 0 0\r\n" ++
+  "K(1)(1270)bar-_mass 0 1289.81 1.75\n" ++
+  "D0_radius 3.7559\t#constant\n" ++
+  "D0{K-,X[P]{EventType,nEvents}}+1 .5 1e-3\n" ++
+  "x::y=Output\n" ++
+  "FastCoherentSum::UseCartesian  1\n" ++
+  "Output\"fit \\\"one\\\".root\"\n" ++
+  "nEvents 10000\n" ++
+  "\n" ++
+  " # end of the options"
+
+set_option maxRecDepth 20000 in
+/-- the plain text is the canonical rendering of the statements, so the round trip theorem (not an
+    evaluation of the reader) says what it reads to -/
+theorem C17_exPlain : Amp.readAmpText exAmpPlain = .ok exAmpDoc := by
+  have h : exAmpPlain = String.ofList (Amp.RT.renderAmpSimple exAmpDoc) := by decide
+  rw [h]
+  exact C17_read_simple exAmpDoc (by decide) (by simp [exAmpDoc])
+
+set_option maxRecDepth 20000 in
+/-- the fancy text is another layout of the same statements -/
+theorem C17_exFancy : Amp.readAmpText exAmpFancy = .ok exAmpDoc := by
+  have h : exAmpFancy = String.ofList (Amp.RT.renderAmp exAmpLayout exAmpDoc) := by decide
+  rw [h]
+  exact C17_read_layout exAmpLayout (by decide) exAmpDoc (by decide) (by simp [exAmpDoc])
+
+theorem C17_exFancy_exPlain : Amp.readAmpText exAmpFancy = Amp.readAmpText exAmpPlain := by
+  rw [C17_exFancy, C17_exPlain]
+
+set_option maxRecDepth 20000 in
+/-- the same text through the reader with integer flags -/
+theorem C17_exFancy_int : readAmp exAmpFancy = .ok (exAmpDoc.map Amp.RT.stmtOf) := by
+  have h : exAmpFancy = String.ofList (Amp.RT.renderAmp exAmpLayout exAmpDoc) := by decide
+  rw [h]
+  exact C17_readAmp_layout exAmpLayout (by decide) exAmpDoc (by decide) (by simp [exAmpDoc]) (by decide)
+
+/-- a text that ends in a comment behind its last statement, without any line end -/
+theorem C17_exSameLine :
+    Amp.readAmpText "EventType D0 K+ K-\nnEvents 5 # no line end" = .ok [.eventType ["D0", "K+", "K-"], .nEvents "5"] := by
+  have h : "EventType D0 K+ K-\nnEvents 5 # no line end" =
+      String.ofList (Amp.RT.renderAmp { fin := .sameLine [' '] " no line end".toList }
+        [.eventType ["D0", "K+", "K-"], .nEvents "5"]) := by decide
+  rw [h]
+  exact C17_read_layout _ (by decide) _ (by decide) (by simp)
+
+/-- what the statement conditions refuse: a keyword as the name of a parameter, a later event-type
+    name that starts like a number, a one-character lineshape, a top-level tree without daughters, a
+    string with an unescaped quote, a signed option value -/
+example : ¬ Amp.RT.AStmtOK (.constant "nEvents" "1") ∧ ¬ Amp.RT.AStmtOK (.eventType ["D0", "2pi"]) ∧
+    Amp.RT.AStmtOK (.eventType ["2pi", "D0"]) ∧
+    ¬ Amp.RT.AStmtOK (.line (.mk "D0" none (some "D") [exLeaf "a", exLeaf "b"]) "1" "1" "1" "1" "1" "1") ∧
+    ¬ Amp.RT.AStmtOK (.line (exLeaf "D0") "1" "1" "1" "1" "1" "1") ∧
+    ¬ Amp.RT.AStmtOK (.output "\"a\"b\"") ∧ ¬ Amp.RT.AStmtOK (.nEvents "+5") ∧
+    ¬ Amp.RT.FlagsInt (.variable "x" "2.0" "1" "0") := by decide
 
 end DL
